@@ -154,6 +154,21 @@ class C05(Check):
                     broken.append(Broken("correspondence", "ValueCondition.evaluate vs Tank.evalValue", "%s: observed %s model %s" % (label, r, ans)))
 
             B.ask("val %s %s %s" % (r["rel"], F(r["cur"]), F(r["thr"])), cb2)
+        # --- the status property: every (kind, _user_status, _internal_status) -> status seen at a reported step
+        seen = set()
+        for r in tr.rows:
+            for i, ln in enumerate(tr.links):
+                key = (tr.kinds[i], r["priv"][i][0], r["priv"][i][1], r["links"][ln][0])
+                if key in seen:
+                    continue
+                seen.add(key)
+                ctx.count("status-observed:%s" % tr.kinds[i])
+
+                def cb_s(ans, key=key):
+                    if float(K.parse_rat(ans)) != key[3]:
+                        broken.append(Broken("correspondence", "Link.status vs Tank.status", "%s: kind=%s _user_status=%s _internal_status=%s: impl %s model %s" % ((label,) + key + (ans,))))
+
+                B.ask("stat %s %s %s" % (key[0], F(key[1]), F(key[2])), cb_s)
         # --- passes
         B.ask("track %d %s" % (len(tr.tracked), " ".join("%d %s" % t for t in tr.tracked)))
 
@@ -206,6 +221,18 @@ class C05(Check):
 
             B.ask("pre %d %d %d %s" % (1 if p["first"] else 0, int(p["t0"]), len(p["due"]),
                                       " ".join("%d %d %d %s %s %d" % (d[0], d[1], d[2], d[3], F(d[4]), d[5]) for d in p["due"])), cb4)
+        # --- structural facts of run_sim the theorems rely on: a step is reported only after a post-solve pass that changed
+        #     nothing the tracker watches, and what is saved is the state that pass was evaluated on / left behind
+        last = {}
+        for p in tr.post:
+            last[p["t"]] = p
+        for r in tr.rows:
+            p = last.get(r["t"])
+            ctx.count("reported-after-quiet-pass")
+            if p is None or [tuple(x) for x in p["after"]] != [tuple(x) for x in r["priv"]] or observable(p["before"]) != observable(p["after"]):
+                broken.append(Broken("correspondence", "run_sim reports the fixpoint of the post-solve pass",
+                                     "%s t=%s: last post-solve pass %s, saved private state %s" % (label, r["t"], None if p is None else (p["before"], p["after"]), r["priv"])))
+                break
         # --- oracles on reported steps
         self._oracles(ctx, B, spec, tr, tr.rows, tids, label, failures, expect_judged)
         if grid and tr.rows and not tr.error:
@@ -343,7 +370,10 @@ class C05(Check):
         specs.append(("designed/two-thresholds-same-tank", K.two_threshold_spec(False, True), [0, 1]))
         specs.append(("designed/two-thresholds-two-tanks", K.two_threshold_spec(False, False), [0, 1]))
         specs.append(("designed/volcurve-clamp-threshold", K.head_tie_spec(), None))
-        n = 14 if ctx.quick else 80
+        specs.append(("designed/priority-conflict-high-first", K.priority_conflict_spec(True), None))
+        specs.append(("designed/priority-conflict-high-last", K.priority_conflict_spec(False), None))
+        specs.append(("designed/priority-conflict-equal", K.priority_conflict_spec(True, True), None))
+        n = 14 if ctx.quick else 220
         for i in range(n):
             force = {}
             if i % 3 == 0:
@@ -357,9 +387,16 @@ class C05(Check):
                             "reported": [(r["t"], r["links"][c["link"]][0]) for r in tr.rows[:8]]})
         B.finish()
         ctx.cov["driver_requests"] = len(B.lines)
+        known = {k.get("key") for k in vlib.load_known_findings()["findings"] if k.get("property") == "C05"}
+        if broken and not [f for f in failures if f.key not in known]:
+            # vlib only searches when no failure at all was found; known findings must not suppress the search
+            failures += self.search(ctx, broken)
         return failures, broken
 
     def search(self, ctx, broken):
+        if getattr(self, "_searched", False):
+            return []
+        self._searched = True
         failures, br2 = [], []
         B = K.Batch()
         for i in range(30 if ctx.quick else 120):
